@@ -3,7 +3,7 @@ import math
 import numpy as np
 import scipy as sp
 
-from pygradflow.linear_solver import LinearSolver
+from pygradflow.linear_solver import LinearSolver, LinearSolverError
 from pygradflow.log import logger
 from pygradflow.params import Params
 
@@ -85,13 +85,20 @@ class ConditionEstimator:
             xnorm = float(np.linalg.norm(xprod))
             ynorm = float(np.linalg.norm(yprod))
 
+            # with inexact (iterative) solves the iteration can break down:
+            # a solve returns zero, the products overflow or the power
+            # iteration loses positivity. No estimate is available then.
+            if not (0.0 < xnorm < np.inf and 0.0 < ynorm < np.inf):
+                raise LinearSolverError("Condition estimate broke down")
+
             xfac *= xnorm
             xprod /= xnorm
 
             yfac *= ynorm
             yprod /= ynorm
 
-            assert y.dot(yprod) > 0.0
+            if not y.dot(yprod) > 0.0:
+                raise LinearSolverError("Condition estimate broke down")
 
         pow_fac = 1.0 / (2.0 * num_its)
 
